@@ -37,9 +37,10 @@ ASSUMPTIONS = ['world-coordinate input values are read from glue (C15 is an inpu
                'views are slice tuples / integers (C04 covers the view domain)', 'sampling, not proof']
 PROBES = ['binary_tree', 'user_function', 'two_input_function', 'parsed_text', 'derived_of_derived', 'pixel_input', 'world_input', 'cascade_removed_ge_2',
           'compare_after_update', 'compare_after_reorder', 'compare_after_update_id', 'view_compare', 'in_collection', 'nan_propagated',
-          'link_object_reused', 'ill_conditioned_elements_skipped']
+          'link_object_reused', 'ill_conditioned_elements_skipped', 'parsed_offered_unused_attributes', 'expression_repointed']
 
-WEIGHTS = {'add_comp': 2, 'add_binary': 5, 'add_fn': 3, 'add_parsed': 3, 'remove': 2, 'update_id': 1, 'upd': 3, 'reorder': 1.5, 'compare': 5}
+WEIGHTS = {'add_comp': 2, 'add_binary': 5, 'add_fn': 3, 'add_parsed': 3, 'remove': 2, 'update_id': 1, 'upd': 3, 'reorder': 1.5, 'compare': 5,
+           'repoint': 1.5}
 OPS = {'+': operator.add, '-': operator.sub, '*': operator.mul, '/': operator.truediv, '**': operator.pow}
 VIEWS = [None, None, [[0, 3, 1]], [[1, 4, 2]], 'int0', [[0, 2, 1], [0, 2, 1]], [[0, 5, 2], [1, 2, 1], [0, 3, 2]]]
 
@@ -73,11 +74,13 @@ def generate(rng, cfg, guards):
         if k == 'add_comp':
             ops.append([k, rng.randrange(10000)])
         elif k in ('add_binary', 'add_parsed'):
-            ops.append([k, gen_tree(rng, rng.pick([1, 2, 3]))])
+            ops.append([k, gen_tree(rng, rng.pick([1, 2, 3])), rng.chance(0.4)])
         elif k == 'add_fn':
             ops.append([k, rng.pick(sorted(LF.ONE) + sorted(LF.TWO)), rng.randrange(12), rng.randrange(12)])
         elif k in ('remove', 'update_id'):
             ops.append([k, rng.randrange(12)])
+        elif k == 'repoint':
+            ops.append([k, rng.randrange(12), rng.randrange(12), rng.randrange(12)])
         elif k == 'upd':
             ops.append([k, rng.randrange(12), rng.randrange(10000)])
         elif k == 'reorder':
@@ -216,6 +219,7 @@ def _execute(case, res):
     d = None
     nname = [0]
     since = {'upd': False, 'reorder': False, 'update_id': False}
+    shared = [set(), False]     # attributes whose defining link object is (part of) another one's: re-pointing one would re-point the other
 
     def candidates():
         return [c for c in d.components if id(c) not in m.orphan]
@@ -232,6 +236,8 @@ def _execute(case, res):
             else:
                 c = cs[t[1] % len(cs)]
                 res.probe('link_object_reused')
+                shared[0].add(id(c))
+                shared[1] = True
                 return m.trees[id(c)], m.links[id(c)], None, {}
         if k == 'cid':
             cs = [c for c in candidates() if d.get_kind(c) == 'numerical']
@@ -265,6 +271,7 @@ def _execute(case, res):
             cid = d.add_component(arr, 's%d' % nname[0])
             m.raw[id(cid)] = arr
         elif k in ('add_binary', 'add_parsed'):
+            shared[1] = False
             tree, expr, text, refs = bind(op[1], k == 'add_parsed')
             if tree[0] in ('const', 'ref'):
                 continue
@@ -274,9 +281,17 @@ def _execute(case, res):
                 d.add_component_link(expr, label)
                 cid = d.id[label]
                 m.links[id(cid)] = expr
+                if shared[1]:
+                    shared[0].add(id(cid))
                 res.probe('binary_tree')
             else:
                 cid = ComponentID(label, parent=d)
+                if len(op) > 2 and op[2]:
+                    # the expression is offered more attributes than it uses (a dialog passes all of the dataset's)
+                    refs = dict(refs)
+                    for n_, c_ in enumerate(c for c in candidates() if d.get_kind(c) == 'numerical'):
+                        refs.setdefault('unused%d' % n_, c_)
+                    res.probe('parsed_offered_unused_attributes')
                 d.add_component_link(ParsedComponentLink(cid, ParsedCommand(text, refs)))
                 res.probe('parsed_text')
             m.trees[id(cid)] = tree
@@ -301,6 +316,34 @@ def _execute(case, res):
             m.kinds[id(cid)] = 'add_fn'
             m.age[id(cid)] = 0
             note_inputs(d, m, tree, res)
+        elif k == 'repoint':
+            # an expression is re-pointed from one input to another through the public ComponentLink.replace_ids
+            cands = [c for c in d.derived_components if id(c) in m.links and id(c) in m.trees and id(c) not in m.orphan
+                     and id(c) not in shared[0] and m.kinds.get(id(c)) in ('add_binary', 'add_fn')]
+            if not cands:
+                continue
+            c = cands[op[1] % len(cands)]
+            ins = []
+            for r in m.refs(m.trees[id(c)], []):
+                if not any(r is x for x in ins):
+                    ins.append(r)
+            news = [x for x in candidates() if d.get_kind(x) == 'numerical' and x is not c and not m.depends_on(x, c)
+                    and not any(x is r for r in ins)]
+            if not ins or not news:
+                continue
+            old, new = ins[op[2] % len(ins)], news[op[3] % len(news)]
+            m.links[id(c)].replace_ids(old, new)
+
+            def subst(t):
+                if t[0] == 'ref':
+                    return ['ref', new] if t[1] is old else t
+                if t[0] in OPS:
+                    return [t[0], subst(t[1]), subst(t[2])]
+                if t[0] == 'fn':
+                    return ['fn', t[1], [subst(x) for x in t[2]]]
+                return t
+            m.trees[id(c)] = subst(m.trees[id(c)])
+            res.probe('expression_repointed')
         elif k == 'remove':
             cs = [c for c in d.main_components + d.derived_components]
             if len(d.main_components) <= 1 and not d.derived_components:
